@@ -180,6 +180,8 @@ func fcostOf(fn string, k int) uint64 {
 		return fcost(k, "ESDTNFTAddQuantity")
 	case "ESDTTransfer":
 		return fcost(k, "ESDTTransfer")
+	case "ESDTNFTTransfer":
+		return fcost(k, "ESDTNFTTransfer")
 	}
 	return 0
 }
@@ -245,6 +247,9 @@ type execRec struct {
 	observed uint64
 	charge   func(k int) uint64
 	err      string
+	// need: (tight-gas calls whose price has a per-byte part) an upper estimate of the price under
+	// schedule k, used only to decide whether a refusal for lack of gas is legitimate
+	need func(k int) uint64
 }
 
 type change struct{ start, end int64 }
@@ -328,7 +333,7 @@ func runExec(seed int64, r *rand.Rand, stay int, replay []uint8) runResult {
 	changes := make([]change, 0, K)
 	recs := make([][]execRec, nexec)
 	plans := make([][]string, nexec)
-	kindsAll := []string{"transfercall", "transfercall", "skv", "create", "adduri", "updattr", "mint", "lburn", "burn", "transfer", "nfttransfer", "multi", "addqty", "nftburn", "owner", "claim", "username", "freeze", "freeze", "roles"}
+	kindsAll := []string{"transfercall", "transfercall", "nftlocal", "nftlocal", "skv", "create", "adduri", "updattr", "mint", "lburn", "burn", "transfer", "nfttransfer", "multi", "addqty", "nftburn", "owner", "claim", "username", "freeze", "freeze", "roles"}
 	for t := 0; t < nexec; t++ {
 		n := 2 + r.Intn(8)
 		plans[t] = append(plans[t], "create")
@@ -344,6 +349,7 @@ func runExec(seed int64, r *rand.Rand, stay int, replay []uint8) runResult {
 	// function under one of the schedules), so that an execution admitted by one schedule and charged
 	// by another shows as gas out of nothing
 	tightGas := make([]uint64, ntasks)
+	lastNFTLen := make([]uint64, ntasks)
 	noTight := false
 	call := func(t int, fn string, caller, rcv []byte, args [][]byte, snd, dst vmcommon.UserAccountHandler, charge func(k int, out *vmcommon.VMOutput) uint64) execRec {
 		rec := execRec{fn: fn}
@@ -528,6 +534,28 @@ func runExec(seed int64, r *rand.Rand, stay int, replay []uint8) runResult {
 			}
 			c := acc.stores[t].get(st.sc)
 			return call(t, "ESDTTransfer", st.user, st.sc, [][]byte{tokF, {1}, []byte("accept"), {byte(ar.Intn(256))}}, u, c, func(k int, _ *vmcommon.VMOutput) uint64 { return fcost(k, "ESDTTransfer") }), true
+		case "nftlocal":
+			// a plain NFT transfer to a contract in the same shard: the destination is loaded and the
+			// host's payability handler is asked in the middle of the execution; gas is often tight
+			// (the price has a per-byte part even inside the shard: the bytes of the entry as it is
+			// stored at the destination; its length is read right after the call)
+			c := acc.stores[t].get(st.sc)
+			key := "ELRONDesdt" + string(tokN) + "\x01"
+			last := lastNFTLen[t]
+			if last > 0 && ar.Intn(2) == 0 {
+				kk := ar.Intn(K + 1)
+				tightGas[t] = fcost(kk, "ESDTNFTTransfer") + copyPB(kk)*last + []uint64{0, 1, 7, 40}[ar.Intn(4)]
+			} else {
+				tightGas[t] = 0
+			}
+			rec := call(t, "ESDTNFTTransfer", st.user, st.user, [][]byte{tokN, {1}, {1}, st.sc}, u, u, func(k int, _ *vmcommon.VMOutput) uint64 { return 0 })
+			l := uint64(len(c.storage[key]))
+			if rec.err == "" && l > 0 {
+				lastNFTLen[t] = l
+				rec.charge = func(k int) uint64 { return fcost(k, "ESDTNFTTransfer") + copyPB(k)*l }
+			}
+			rec.need = func(k int) uint64 { return fcost(k, "ESDTNFTTransfer") + copyPB(k)*(last+2) }
+			return rec, true
 		case "transfer":
 			return call(t, "ESDTTransfer", st.user, st.far, [][]byte{tokF, {1}}, u, nil, func(k int, _ *vmcommon.VMOutput) uint64 { return fcost(k, "ESDTTransfer") }), true
 		case "nfttransfer":
@@ -653,7 +681,11 @@ func runExec(seed int64, r *rand.Rand, stay int, replay []uint8) runResult {
 					// a tight-gas call may be refused if a schedule in force during it prices it above the gas
 					afford := true
 					for k := a; k <= b; k++ {
-						if fcostOf(rec.fn, k) > rec.gas {
+						need := fcostOf(rec.fn, k)
+						if rec.need != nil {
+							need = rec.need(k)
+						}
+						if need > rec.gas {
 							afford = false
 						}
 					}
